@@ -1366,6 +1366,7 @@ package server
 //@ func (*ProxyServerProtocol).ProcessLockResultCommandLocked
 //@   requires self != nil
 //@   requires C03.result-code: result <= protocol.RESULT_LOCK_ACK_WAITING
+//@   at call AddProxy assert C18.proxy.announced,C03.proxy.announced: exists(k, 0, 16, self.clientId[k] != 0)
 //@   at call ProcessLockResultCommandLocked assert C18.proxy.adopted: implies(ref(self.serverProtocol) != ref(old(self.serverProtocol)), calls(AddProxy) == 1)
 //@   preserves F_server_Lock_, F_server_LockManager, F_server_LockDB_, F_server_LockQueue_, F_server_LongWaitLock, F_server_MillisecondWaitLock, F_server_FastKeyValue_, F_server_PriorityMutex_, F_server_Aof, F_server_Arbiter, F_server_Replication, F_protocol_protobuf_, F_server_Subscribe, F_server_Publish, F_server_LockData_, F_protocol_LockDBState_, F_protocol_LockCommand_, E_Pserver_, E_LJPserver_, E_int32, E_server_, MH_, MV_
 //@   modifies protocol.TextParser.*, BinaryServerProtocol.*, MemWaiterServerProtocol.*, ProxyServerProtocol.*, Stream.*, StreamReaderBuffer.*, StreamWriterBuffer.*, TextServerProtocol.*, TransparencyBinaryServerProtocol.*, TransparencyTextServerProtocol.*
